@@ -1034,7 +1034,22 @@ func c10clients(rep *vh.Report, seed uint64, idx int) {
 				}
 			}
 		}()
-		dgram("udp-client", "udp:"+upc.LocalAddr().String(), func(w []byte) error { _, err := upc.WriteTo(w, addr); return err }, pr2, 201)
+		// a stranger on the server's host: another socket (another port) that sends valid frames to the port the client speaks
+		// from. They are not from the client's peer: nothing of them arrives on the client's link
+		stranger, serr := net.ListenPacket("udp4", "127.0.0.1:0")
+		if serr == nil {
+			defer stranger.Close()
+		}
+		nsent := 0
+		dgram("udp-client", "udp:"+upc.LocalAddr().String(), func(w []byte) error {
+			nsent++
+			if serr == nil && nsent%4 == 1 {
+				_, _ = stranger.WriteTo(uidFrame(uint64(0x5757)<<48|uint64(nsent), byte(nsent), 66, false, nil, 0), addr)
+				rep.Count("udp_client_datagrams_from_a_stranger_on_the_servers_host", 1)
+			}
+			_, err := upc.WriteTo(w, addr)
+			return err
+		}, pr2, 201)
 	}()
 	// UDP broadcast: anybody on the segment sends to the node's local address
 	wg.Add(1)
